@@ -251,14 +251,22 @@ pub fn norm(x: u128, dec: u8) -> U1024 {
     w(x) * pow10(18 - dec as u32)
 }
 
-fn imbalance_class(x: &U1024, y: &U1024) -> &'static str {
+pub fn leak_class(leak: f64) -> &'static str {
+    if leak <= 1e-12 {
+        "leak<=1e-12"
+    } else if leak <= 1e-6 {
+        "leak<=1e-6"
+    } else {
+        "leak>1e-6"
+    }
+}
+
+pub fn imbalance_class(x: &U1024, y: &U1024) -> &'static str {
     let (hi, lo) = if x > y { (x, y) } else { (y, x) };
     if *hi <= *lo * w(10) {
         "imb<=10"
-    } else if *hi <= *lo * w(1000) {
-        "imb<=1e3"
     } else if *hi <= *lo * w(1_000_000) {
-        "imb<=1e6"
+        "imb(10,1e6]"
     } else {
         "imb>1e6"
     }
@@ -355,8 +363,8 @@ fn check_stable_lp(acc: &mut Acc, wd: &PairWorld, pre: &Obs, post: &Obs, what: &
         // relative size of the drop of D per LP
         let exact_rhs = d0 * w(post.s);
         let rel = diff_f64(&exact_rhs, &lhs) / f64_of(&exact_rhs).max(1.0);
-        let mag = if rel <= 1e-9 { "drop<=1e-9" } else if rel <= 1e-6 { "drop<=1e-6" } else if rel <= 1e-3 { "drop<=1e-3" } else { "drop>1e-3" };
-        acc.violation("C03", &format!("S4/{op}/{eq}/{imb}/{mag}"), viol_detail(wd, json!({"pre": format!("{pre:?}"), "post": format!("{post:?}"), "D0": d0.to_string(), "D1": d1.to_string(), "rel_drop": rel, "step": what})));
+        let mag = leak_class(rel);
+        acc.violation("C03", &format!("S4/{imb}/{mag}"), viol_detail(wd, json!({"op": op, "decimals_class": eq, "pre": format!("{pre:?}"), "post": format!("{post:?}"), "D0": d0.to_string(), "D1": d1.to_string(), "rel_drop": rel, "step": what})));
     } else {
         let exact_rhs = d0 * w(post.s);
         let rel = diff_f64(&lhs, &exact_rhs) / f64_of(&exact_rhs).max(1.0);
@@ -486,8 +494,8 @@ fn check_stable_swap_bound(acc: &mut Acc, wd: &PairWorld, pre: &Obs, post: &Obs,
         return;
     }
     acc.count("check.S1.e2e");
-    if gross >= w(pre.r[ask]) {
-        acc.violation("C03", "S2/gross>=ask-reserve", viol_detail(wd, json!({"step": what})));
+    if gross > w(pre.r[ask]) {
+        acc.violation("C03", "S2/gross>ask-reserve", viol_detail(wd, json!({"step": what})));
     }
     let bound = stable_swap_floor(wd.amp, pre.r[dir], pre.r[ask], offer, wd.pair.decimals[dir], wd.pair.decimals[ask]);
     // ask reserve after the swap as far as the curve is concerned: pre reserve - gross
@@ -878,11 +886,11 @@ pub fn probes(acc: &mut Acc, wd: &mut PairWorld, r: &mut Rng) {
                                 let delta = w(4) * pow10(18 - mind as u32);
                                 if d1 + delta < d0 {
                                     let rel = diff_f64(&d0, &d1) / f64_of(&d0).max(1.0);
-                                    let mag = if rel <= 1e-9 { "drop<=1e-9" } else if rel <= 1e-6 { "drop<=1e-6" } else if rel <= 1e-3 { "drop<=1e-3" } else { "drop>1e-3" };
+                                    let mag = leak_class(rel);
                                     let eq = if wd.pair.decimals[0] == wd.pair.decimals[1] { "equal-decimals" } else { "unequal-decimals" };
                                     let x = norm(obs.r[0], wd.pair.decimals[0]);
                                     let y = norm(obs.r[1], wd.pair.decimals[1]);
-                                    acc.violation("C03", &format!("S5/deposit-then-withdraw-extracts-value/{eq}/{}/{mag}", imbalance_class(&x, &y)), viol_detail(wd, json!({"d": [d[0].to_string(), d[1].to_string()], "D_before": d0.to_string(), "D_after": d1.to_string(), "obs": format!("{obs:?}"), "after": format!("{after:?}")})));
+                                    acc.violation("C03", &format!("S4/{}/{mag}", imbalance_class(&x, &y)), viol_detail(wd, json!({"probe": "S5 deposit-then-withdraw", "decimals_class": eq, "d": [d[0].to_string(), d[1].to_string()], "D_before": d0.to_string(), "D_after": d1.to_string(), "obs": format!("{obs:?}"), "after": format!("{after:?}")})));
                                 }
                             }
                         }
@@ -906,9 +914,13 @@ pub fn probes(acc: &mut Acc, wd: &mut PairWorld, r: &mut Rng) {
                 acc.count("check.I4.swap-there-and-back");
                 let b1 = wd.pair.assets[dir].balance(&wd.app, &usr);
                 if b1 > b0 {
-                    let p = if wd.kind == Kind::Cp { "C02" } else { "C03" };
-                    acc.violation(p, &format!("{pfx}.R/e2e/there-and-back-profit"), viol_detail(wd, json!({"dir": dir, "amount": amt.to_string(), "gain": (b1 - b0).to_string(), "obs": format!("{obs:?}")})));
+                    match wd.kind {
+                        Kind::Cp => acc.violation("C02", "C02.R/e2e/there-and-back-profit", viol_detail(wd, json!({"dir": dir, "amount": amt.to_string(), "gain": (b1 - b0).to_string(), "obs": format!("{obs:?}")}))),
+                        // not part of C03's statement (the swap clause is S1); recorded as an observation only
+                        Kind::Stable => acc.count("observed.stable.there-and-back-gain"),
+                    }
                 }
+                acc.slack("there-and-back.initial-minus-final", b0 as f64 - b1 as f64, || format!("dir={dir} amt={amt} obs={obs:?}"));
             }
         }
         restore(&mut wd.app, &saved);
